@@ -219,5 +219,7 @@ pub fn run(cfg: &Cfg) {
         blocks += 1;
     }
     sink.note(&format!("all-characters sweep: stride {} over U+0000..U+10FFFF in {} blocks of 64 characters", stride, blocks));
+    // the source text side of "depends only on the value": the text reader against Model/JsonText.lean
+    crate::textgen::run_text_cases(&mut sink, &mut r, if cfg.thorough { 20000 } else { 1500 });
     sink.finish(&cfg.out, serde_json::json!({"exhaustive_scope": if cfg.thorough { 0x110000 - 0x800 } else { 0 }}));
 }
